@@ -13,16 +13,26 @@
      (d) the table the gates consult covers the frozen RFC list of extension-owned commands, tags
          and match types (C07_tables_cover_frozen, a vm_compute obligation over the generated
          tables), and has no blind spot (C07_no_blind_spot).
-   Removal direction ("rejected with extension '<x>' not loaded, x first in script order"): the
-   three gate examples below are computed on the model; the general statement needs
-   C01_complete and is exercised on the implementation by the check (all (script, extension)
-   pairs of the generator). *)
+   Removal direction ("rejected with extension '<x>' not loaded, x first in script order"), sieve/LessLoaded.v
+   and sieve/RemovalFacts.v: two runs of the parser on the same tokens, the second with a subset of the loaded
+   extensions, are in lockstep -- same stack, expectations, brackets, results with the same command names --
+   until the first transition that consults an extension the second run lacks, where the second run stops with
+   "extension 'x' not loaded" (C07_step_simulation: every transition, for every state and token, by case analysis
+   over the whole machine; the stale string-list buffer, which differs after `require` commands of different
+   lengths, is part of the relation).  Hence for two scripts that begin with commands of the grammar -- the
+   `require` commands, listing different extensions -- and continue with the same tokens: if the full one is
+   accepted, the reduced one is either accepted with the same commands or rejected with that message at a token
+   of the common part, for an extension the full run has loaded there and the reduced run has not
+   (C07_removal_rejects); together with C07_accept (an accepted tree never needs an extension that is not
+   loaded) a script whose tree needs the removed extension cannot take the first alternative.  Three gate
+   examples and one removal example are computed on the model; all (script, extension) pairs of the generator
+   are run on the implementation. *)
 From Coq Require Import String.
 From Coq Require Import List NArith Bool Arith.
 From SV Require Import Bytes Lexer Tables ArgCheck ArgSpec Machine Printer GenTables.
 Import ListNotations.
 Local Open Scope nat_scope.
-From SV Require Import GateFacts.
+From SV Require Import GateFacts TotalFacts CompleteFacts CompleteTree LessLoaded RemovalFacts.
 
 (* one parser step changes the loaded set only by completing a require with ';' (loaded_step) *)
 Theorem C07_only_require_loads :
@@ -119,6 +129,86 @@ Theorem C07_accept_generated_tables :
      In n r -> In e (needs fuel n) -> mem e (p_loaded st) = true).
 Proof. exact GateFacts.gate_accept_gen. Qed.
 Print Assumptions C07_accept_generated_tables.
+
+(* one transition with fewer extensions loaded: the same outcome in the related state, or extension-not-loaded for an extension the full run has *)
+Theorem C07_step_simulation :
+  forall (T : tables) (st : pstate) (t : token) (C' L' : list bytes) (R' : list node),
+  rel C' L' R' st -> sim st (ch C' L' R' st) (process T st t) (process T (ch C' L' R' st) t).
+Proof. exact LessLoaded.process_sim. Qed.
+Print Assumptions C07_step_simulation.
+
+(* whole runs over the same tokens: accepted with the same command names, or rejected at the first token that consults a missing extension *)
+Theorem C07_run_simulation :
+  forall (T : tables) (fuel : nat) (toks toks' : list token) (endpos endpos' ll : nat)
+    (st : pstate) (C' L' : list bytes) (R' res : list node),
+  Forall2 tok_eq toks toks' ->
+  rel C' L' R' st ->
+  PositionFacts.run_tokens fuel T toks None endpos ll st = Accept res ->
+  (exists res' : list node,
+     PositionFacts.run_tokens fuel T toks' None endpos' ll (ch C' L' R' st) = Accept res' /\
+     names res = names res') \/
+  (exists (x : bytes) (t' : token) (s s' : pstate),
+     In t' toks' /\
+     PositionFacts.run_tokens fuel T toks' None endpos' ll (ch C' L' R' st) =
+     Reject (EExtNotLoaded x) (t_pos t') (Datatypes.length (t_val t')) /\
+     simst s s' /\ lacks (p_loaded s) (p_loaded s') x).
+Proof. exact LessLoaded.run_less. Qed.
+Print Assumptions C07_run_simulation.
+
+(* two scripts whose prefixes leave the parser in related states and whose remainders are the same tokens *)
+Theorem C07_removal_dichotomy :
+  forall (T : tables) (full red : bytes) (pre pre' rest rest' : list token) 
+    (stA stB : pstate) (r : list node),
+  twf_tables T = true ->
+  snd (lex full) = None ->
+  snd (lex red) = None ->
+  fst (lex full) = pre ++ rest ->
+  fst (lex red) = pre' ++ rest' ->
+  Forall2 tok_eq rest rest' ->
+  steps T p_init (map strip_pos pre) = Some stA ->
+  steps T p_init (map strip_pos pre') = Some stB ->
+  simst stA stB ->
+  parse T full = Accept r ->
+  (exists r' : list node, parse T red = Accept r' /\ names r = names r') \/
+  (exists (x : bytes) (t' : token) (s s' : pstate),
+     In t' rest' /\
+     parse T red = Reject (EExtNotLoaded x) (t_pos t') (Datatypes.length (t_val t')) /\
+     simst s s' /\ lacks (p_loaded s) (p_loaded s') x).
+Proof. exact LessLoaded.removal_dichotomy. Qed.
+Print Assumptions C07_removal_dichotomy.
+
+(* two scripts that begin with commands of the grammar (the require commands) loading a subset and continue with the same tokens *)
+Theorem C07_removal_rejects :
+  forall (T : tables) (full red : bytes) (pre pre' rest rest' : list token)
+    (cs cs' : list gcmd) (ns ns' : list node) (L L' : list bytes) 
+    (r : list node),
+  twf_tables T = true ->
+  snd (lex full) = None ->
+  snd (lex red) = None ->
+  fst (lex full) = pre ++ rest ->
+  fst (lex red) = pre' ++ rest' ->
+  Forall2 tok_eq rest rest' ->
+  map strip_pos pre = flat_map toks_cmd cs ->
+  map strip_pos pre' = flat_map toks_cmd cs' ->
+  wf_cmds T [] None cs ns L ->
+  wf_cmds T [] None cs' ns' L' ->
+  sub L' L ->
+  names ns = names ns' ->
+  parse T full = Accept r ->
+  (exists r' : list node, parse T red = Accept r' /\ names r = names r') \/
+  (exists (x : bytes) (t' : token) (s s' : pstate),
+     In t' rest' /\
+     parse T red = Reject (EExtNotLoaded x) (t_pos t') (Datatypes.length (t_val t')) /\
+     simst s s' /\ lacks (p_loaded s) (p_loaded s') x).
+Proof. exact RemovalFacts.removal_rejects. Qed.
+Print Assumptions C07_removal_rejects.
+
+(* computed on the tables generated from /repo: `copy` removed from the require, rejected at the tag :copy *)
+Theorem C07_removal_example :
+  (exists r : list node, parse gen_tables ex_full = Accept r) /\
+  parse gen_tables ex_red = Reject (EExtNotLoaded (bs "copy")) 41 5.
+Proof. exact RemovalFacts.ex_removal. Qed.
+Print Assumptions C07_removal_example.
 
 (* obligations over the generated tables, re-checked on every run *)
 Theorem C07_tables_wf : wf_tables gen_tables = true.
